@@ -589,7 +589,7 @@ func (g *goTrans) expr(e ast.Expr) ast.Expr {
 				as := []ast.Expr{&ast.CallExpr{Fun: ast.NewIdent("int64"), Args: []ast.Expr{g.expr(x.Args[0])}}, g.expr(x.Args[1])}
 				as = append(as, x.Args[2:]...)
 				return &ast.CallExpr{Fun: ast.NewIdent("vrEnumNames"), Args: as}
-			case "__forall", "__exists", "pos", "lim", "sid", "fault", "peeked", "bsize", "data", "arr", "off", "ref", "is", "implements", "window", "windowAt", "fresh", "same", "athead", "atentry", "popcount64":
+			case "__forall", "__exists", "pos", "lim", "sid", "fault", "peeked", "bsize", "data", "arr", "off", "ref", "is", "implements", "window", "windowAt", "fresh", "same", "athead", "atentry", "gfun", "popcount64":
 				g.fail = "clause uses ghost construct " + id.Name
 				return x
 			}
